@@ -100,7 +100,7 @@ func buildTagFields(rt reflect.Type, nested, omitEmpty bool) (fa []*finfo) {
 			continue
 		}
 		var fx byte
-		if f.Anonymous && nested {
+		if embeddedStruct(&f) && nested {
 			if f.Type.Kind() == reflect.Ptr {
 				for _, fi := range buildTagFields(f.Type.Elem(), nested, omitEmpty) {
 					fi.index = append([]int{i}, fi.index...)
@@ -153,7 +153,7 @@ func buildExactFields(rt reflect.Type, nested, omitEmpty bool) (fa []*finfo) {
 			continue
 		}
 		switch {
-		case f.Anonymous && nested:
+		case embeddedStruct(&f) && nested:
 			if f.Type.Kind() == reflect.Ptr {
 				for _, fi := range buildExactFields(f.Type.Elem(), nested, omitEmpty) {
 					fi.index = append([]int{i}, fi.index...)
@@ -183,7 +183,7 @@ func buildLowFields(rt reflect.Type, nested, omitEmpty bool) (fa []*finfo) {
 		if len(name) == 0 || 'a' <= name[0] {
 			continue
 		}
-		if f.Anonymous && nested {
+		if embeddedStruct(&f) && nested {
 			if f.Type.Kind() == reflect.Ptr {
 				for _, fi := range buildLowFields(f.Type.Elem(), nested, omitEmpty) {
 					fi.index = append([]int{i}, fi.index...)
@@ -227,4 +227,18 @@ func nilEmbedded(rv reflect.Value, index []int) bool {
 		}
 	}
 	return false
+}
+
+// embeddedStruct returns true if the field is an embedded struct or pointer
+// to a struct. Only those have fields to promote, an embedded type of any
+// other kind is an ordinary field named after the type.
+func embeddedStruct(f *reflect.StructField) bool {
+	if !f.Anonymous {
+		return false
+	}
+	t := f.Type
+	if t.Kind() == reflect.Ptr {
+		t = t.Elem()
+	}
+	return t.Kind() == reflect.Struct
 }
